@@ -315,6 +315,26 @@ class RealSession:
         self.sm.revoke_client_session(self.grants[gi][0])
         return ["ok"]
 
+    def op_remove_grant(self, gi):
+        """SessionManager.remove_session: the grant (and every node above it that has nothing else below) leaves the database"""
+        if gi >= len(self.grants):
+            return ["skip"]
+        self.sm.remove_session(self.grants[gi][0])
+        return ["ok"]
+
+    def op_revoke_user(self, gi):
+        """revocation of the whole user session the grant belongs to (level 0 of its branch): what logging out
+        everywhere amounts to - every client session of the user, every grant and token below them"""
+        if gi >= len(self.grants):
+            return ["skip"]
+        self.sm.revoke_sub_tree(self.grants[gi][0], 0)
+        return ["ok"]
+
+    def in_db(self, gi):
+        """is the grant object still a node of the session database?"""
+        sid, g = self.grants[gi][0], self.grants[gi][1]
+        return self.sm.db.get(self.sm.branch_key(*self.sm.decrypt_session_id(sid))) is g
+
     # ----- observation of the real state (for oracles and for whole-state correspondence)
     def state(self):
         out = []
@@ -326,7 +346,7 @@ class RealSession:
                              "used": t.used, "max": t.usage_rules.get("max_usage"), "mints": t.usage_rules.get("supports_minting"),
                              "revoked": bool(t.revoked), "exp": t.expires_at, "scope": list(t.scope)})
             out.append({"user": u, "client": c, "revoked": bool(g.revoked), "exp": g.expires_at, "scope": list(g.scope),
-                        "sub": g.sub, "tokens": toks})
+                        "sub": g.sub, "tokens": toks, "removed": not self.in_db(gi)})
         return out
 
 
@@ -398,6 +418,10 @@ def coq_op(rs, op):
         return "(RevokeGrant %s)" % coq_nat(op[1])
     if k == "revoke_client":
         return "(RevokeClient %s)" % coq_nat(op[1])
+    if k == "remove_grant":
+        return "(RemoveGrant %s)" % coq_nat(op[1])
+    if k == "revoke_user":
+        return "(RevokeUser %s)" % coq_nat(op[1])
     if k == "tick":
         return "(Tick %s)" % coq_z(op[1])
     raise ValueError(op)
@@ -442,10 +466,10 @@ def coq_state(rs):
                 "None" if mints is None else "(Some %s)" % coq_list([MINTS[m] for m in mints], "tcls"),
                 coq_bool(bool(t.revoked)), coq_z(t.expires_at), coq_strs(t.scope)))
         areq = g.authorization_request
-        gs.append("(mkGrant %s %s %s %s %s %s %s %s)" % (
+        gs.append("(mkGrant %s %s %s %s %s %s %s %s %s)" % (
             coq_str(u), coq_str(c), coq_bool(bool(g.revoked)), coq_z(g.expires_at), coq_strs(g.scope),
             coq_strs(areq.get("scope", [])), coq_str(areq.get("redirect_uri", "")),
-            coq_z(g.authentication_event["valid_until"])))
+            coq_z(g.authentication_event["valid_until"]), coq_bool(not rs.in_db(gi))))
         tl.append(coq_list(toks, "(nat * token)"))
     return "(%s, %s)" % (coq_list(gs, "grant"), coq_list(tl, "list (nat * token)"))
 
@@ -454,11 +478,55 @@ SCOPES = ["openid", "profile", "email", "address", "phone", "offline_access", "c
 SCOPES_KNOWN = ["openid", "profile", "email", "address", "phone", "offline_access"]
 
 
+def gen_multi_prefix(rng):
+    """One user who logs in two or three times at the same client and (mostly) also at a second client, every code
+    redeemed; then sessions are removed / the user session is revoked / a client session or grant is revoked, and the
+    tokens that should have survived - and those that should not - are presented at userinfo, introspection, the
+    refresh grant and the revocation endpoint."""
+    def scope():
+        sc = ["openid", "offline_access"] + rng.sample(["profile", "email", "address", "phone"], rng.randint(0, 2))
+        if rng.random() < 0.15:
+            sc.remove("offline_access")
+        return sc
+    u = rng.choice(USERS)
+    a, b = rng.sample(CLIENTS, 2)
+    logins = [(u, a)] * rng.choice([2, 2, 3]) + [(u, b)] * rng.choice([0, 1, 1, 2])
+    if rng.random() < 0.6:      # a bystander: another user at the same client, whose tokens nothing here may touch
+        logins.append((rng.choice([x for x in USERS if x != u]), rng.choice([a, b])))
+    rng.shuffle(logins)
+    plan = []
+    for (uu, cc) in logins:
+        plan += [("authz_fixed", uu, cc, scope()), ("natural", rng.random(), rng.random()), ("natural", rng.random(), rng.random())]
+        if rng.random() < 0.3:      # some grants have been refreshed once already
+            plan += [("rparse", rng.random(), 0.0, 0.3), ("natural", rng.random(), rng.random())]
+    def exercise(k):
+        out = []
+        for _ in range(k):
+            r = rng.random()
+            if r < 0.25:
+                out.append(("userinfo", rng.random()))
+            elif r < 0.55:
+                out.append(("introspect", rng.random(), rng.random() * 0.9))
+            elif r < 0.85:
+                out += [("rparse", rng.random(), rng.random() * 0.9, rng.random() * 0.8 + 0.16), ("natural", rng.random(), rng.random())]
+            else:
+                out.append(("revoke_ep", rng.random(), rng.random() * 0.9))
+        return out
+    for _ in range(rng.randint(2, 4)):
+        r = rng.random()
+        ev = ("remove_grant" if r < 0.5 else "revoke_user" if r < 0.8 else "revoke_client" if r < 0.9 else "revoke_grant")
+        plan.append((ev, rng.random()))
+        plan += exercise(rng.randint(2, 6))
+        if rng.random() < 0.25:     # a later login of the same user (re-creates whatever nodes the removal took away)
+            plan += [("authz_fixed", u, rng.choice([a, b]), scope()), ("natural", rng.random(), rng.random()), ("natural", rng.random(), rng.random())]
+    return plan
+
+
 def gen_history(rng, n, focus="mixed"):
     """Generate a plan of abstract ops; token / grant / parsed indices are chosen relative to what exists
-    when the op runs (resolved by `materialise`)."""
-    plan = []
-    for i in range(n):
+    when the op runs (resolved by `materialise`).  focus "multi": the history starts with gen_multi_prefix."""
+    plan = gen_multi_prefix(rng) if focus == "multi" else []
+    for i in range(len(plan), max(n, len(plan) + 8) if plan else n):
         r = rng.random()
         if i > 0 and rng.random() < 0.45:
             plan.append(("natural", rng.random(), rng.random()))
@@ -470,24 +538,28 @@ def gen_history(rng, n, focus="mixed"):
             if rng.random() < 0.5 and "offline_access" not in sc:
                 sc.append("offline_access")
             plan.append(("authz", rng.choice(USERS), rng.choice(CLIENTS), sc))
-        elif r < 0.34:
+        elif r < 0.33:
             plan.append(("tparse", rng.random(), rng.random(), rng.random()))
-        elif r < 0.52:
+        elif r < 0.50:
             plan.append(("proc", rng.random(), rng.random()))
-        elif r < 0.62:
+        elif r < 0.59:
             plan.append(("rparse", rng.random(), rng.random(), rng.random()))
-        elif r < 0.70:
+        elif r < 0.665:
             plan.append(("userinfo", rng.random()))
-        elif r < 0.78:
+        elif r < 0.74:
             plan.append(("introspect", rng.random(), rng.random()))
-        elif r < 0.83:
+        elif r < 0.79:
             plan.append(("revoke_ep", rng.random(), rng.random()))
-        elif r < 0.88:
+        elif r < 0.835:
             plan.append(("api_revoke", rng.random(), rng.random() < 0.5))
-        elif r < 0.91:
+        elif r < 0.865:
             plan.append(("revoke_grant", rng.random()))
-        elif r < 0.93:
+        elif r < 0.885:
             plan.append(("revoke_client", rng.random()))
+        elif r < 0.91:
+            plan.append(("remove_grant", rng.random()))
+        elif r < 0.93:
+            plan.append(("revoke_user", rng.random()))
         else:
             plan.append(("tick", rng.choice([1, 10, 100, 299, 300, 301, 600, 601, 3000, 3600, 3601, 43201, 50000, 86401])))
     return plan
@@ -510,9 +582,9 @@ def pick_token(rs, x, want=None, p_wrong=0.15, xx=None):
 
 def materialise(rs, p):
     k = p[0]
-    if k == "authz":
+    if k in ("authz", "authz_fixed"):
         sc = list(p[3])
-        if rs.grants and (hash((p[1], p[2], len(rs.tokens))) % 3 == 0):
+        if k == "authz" and rs.grants and (hash((p[1], p[2], len(rs.tokens))) % 3 == 0):
             # a further login of a user at a client they already have a (possibly revoked) session with
             _, _, u0, c0 = rs.grants[hash((p[2], p[1])) % len(rs.grants)]
             p = ("authz", u0, c0, sc)
@@ -593,7 +665,7 @@ def materialise(rs, p):
         if ref[0] != "tok":
             return ("tick", 1)
         return ("api_revoke", ref, p[2])
-    if k in ("revoke_grant", "revoke_client"):
+    if k in ("revoke_grant", "revoke_client", "remove_grant", "revoke_user"):
         if not rs.grants:
             return ("tick", 1)
         return (k, int(p[1] * len(rs.grants)) % len(rs.grants))
@@ -606,6 +678,9 @@ def run_history(rs, plan, observer=None):
     for p in plan:
         op = materialise(rs, p)
         term_op = coq_op(rs, op)          # before running (owner lookup uses current state)
+        pre = getattr(observer, "before", None)
+        if pre:
+            pre(rs, op)
         out = rs.run(op)
         if out[0] == "skip" and op[0] != "proc":
             continue
